@@ -166,6 +166,16 @@ def check(run):
             specs.append(ShellSpec(0, [0.1, -0.2, 0.3], [0.1], [[1.0]]))
         one_case(run, specs, eri=True)
         run.count("well separated atoms with tight shells only (%g bohr)" % dist)
+    # contracted shells holding a tight and a diffuse primitive on well separated atoms: the tight-tight product factor underflows to
+    # exactly 0 while the diffuse-diffuse one is 1e-3 .. 1e-4, with a third shell listed first (so that the far pair also occurs as
+    # the second pair of a quartet)
+    from checks.common import far_diffuse_pair
+    for k, R_ in enumerate((13.0, 13.6) if quick else (13.0, 13.6, 15.0, 12.95, 17.0, 20.0)):
+        pair = far_diffuse_pair(rng, 0, k % 2, R_, tight=True)
+        pair = [p_.copy(exps=[p_.exps[0], core.snap(0.1 + 0.02 * (k % 3), 10)]) for p_ in pair]
+        third = ShellSpec(0, [x + 0.7 for x in pair[0].center], [core.rand_exp(rng, 0.3, 1.5)], [[1.0]])
+        one_case(run, ([third] + pair) if k % 3 != 2 else (pair + [third]), eri=True)
+        run.count("contracted tight+diffuse shells on well separated atoms (%g bohr)" % R_)
     from checks.common import mutate_returned_spherical_objects
     mutate_returned_spherical_objects(3)
     one_case(run, [s_.copy(sph=True) for s_ in gen(rng, 3, 3, 0.3, 5.0, dependent=False, spread=1.0)])
